@@ -18,7 +18,18 @@ var c13Suppress = map[string]string{
 	"error return after internal/patch.Trampoline in internal/proxy.Func from call:" + Mod + "/internal/unexports2.CreateFuncForCodePtr#1":                "CreateFuncForCodePtr fails only for a non-pointer placeholder, which the dominating bytecode.IsValidPtr test excludes",
 	"error return after internal/patch.InstanceMethodTrampoline in internal/proxy.Method from call:" + Mod + "/internal/unexports2.CreateFuncForCodePtr#1": "CreateFuncForCodePtr fails only for a non-pointer placeholder, which the dominating bytecode.IsValidPtr test excludes",
 	"error of internal/unexports2.GetSymbolTable in internal/unexports2.initAlignmentFunc": "redundant warm-up call after both symbol lookups already succeeded through the same loader; nothing depends on its result",
+	// the same construct in rename-stable form (the function is unexported)
+	"error of internal/unexports2.GetSymbolTable in internal/unexports2.~func()()#0": "redundant warm-up call after both symbol lookups already succeeded through the same loader; nothing depends on its result",
 	"error of internal/unexports2.FindFuncByName in (*mocker.UnexportedMethodMocker).Apply": "deliberate pre-load of the symbol table: the same lookup is repeated and checked in proxy.FuncName, reached through applyByName on the next line",
+}
+
+// c13Suppressed looks a construct up literally and in its rename-stable form.
+func c13Suppressed(p *Prog, cons string) (string, bool) {
+	if why, ok := c13Suppress[cons]; ok {
+		return why, true
+	}
+	why, ok := c13Suppress[p.StableConstruct(cons)]
+	return why, ok
 }
 
 func c13(c *Ctx) {
@@ -82,7 +93,7 @@ func c13(c *Ctx) {
 				nW++
 				cal := staticCallee(d.Common())
 				cons := "error of " + shortName(cal) + " in " + shortName(f)
-				if why, ok := c13Suppress[cons]; ok {
+				if why, ok := c13Suppressed(p, cons); ok {
 					r.OK("C13.R1", cons+" before "+calleeShort(w), p.Pos(posOf(w)), "suppressed: "+why)
 					continue
 				}
@@ -158,7 +169,7 @@ func c13(c *Ctx) {
 						continue
 					}
 					cons := "error return after " + calleeShort(w) + " in " + shortName(f) + " from " + atomsString(origins(rv))
-					if why, ok := c13Suppress[cons]; ok {
+					if why, ok := c13Suppressed(p, cons); ok {
 						r.OK("C13.R1", cons, p.Pos(posOf(ret)), "suppressed: "+why)
 						continue
 					}
@@ -345,7 +356,7 @@ func c13(c *Ctx) {
 	sub.SetConfig(r.cfg)
 	n := checkErrorsUsed(p, sub, "C13.R2", func(cal *ssa.Function) bool { return strings.HasPrefix(pkgPathOf(cal), Mod) }, inPk)
 	for _, o := range sub.Obls {
-		if why, ok := c13Suppress[o.Construct]; ok && o.Verdict == Violated {
+		if why, ok := c13Suppressed(p, o.Construct); ok && o.Verdict == Violated {
 			r.OK(o.Rule, o.Construct, o.Pos, "suppressed: "+why)
 			continue
 		}
